@@ -6,7 +6,7 @@ from . import c08facts
 
 ID = 'C08'
 HERE = os.path.dirname(os.path.abspath(__file__))
-CASES = {'quick': 600, 'thorough': 6000}
+CASES = {'quick': 2000, 'thorough': 20000}
 PARALLEL = True
 PROOF_TIMEOUT = 1500
 ALLOWED_AXIOMS = ()
@@ -504,9 +504,9 @@ def spec_holds(case, obs, spec):
     if d is None or d:
         return False
     r0 = obs['variants'][0]
-    for v in obs['variants'][1:]:
-        if v['outcome'] != r0['outcome']:
-            return False
+    for v in obs['variants']:
+        if v['outcome'] != r0['outcome'] or v['outcome'][0] == 'setup-error':
+            return False          # (a Configurator that cannot even be set up produces no application at all)
     return True
 
 
